@@ -332,6 +332,7 @@ class IterReport:
         self.invariant = []
         self.yields = []
         self.transitions = []      # (pc delta, outcome 'Some'/'None', {field: new value})
+        self.post_values = []      # the iterator value after each transition (same order as transitions)
         self.progress = None       # description or None
         self.progress_ok = False
         self.bound = None
@@ -716,6 +717,7 @@ class IterProtocol:
             outcome = r.variant if isinstance(r, StructV) else "?"
             rep.transitions.append((list(s2.pc[n0:]), outcome, {".".join(p): imap.get(a) for p, a in isyms.items()},
                                     {".".join(p): bmap.get(b[1]) for p, b in bsyms.items()}, s2, r))
+            rep.post_values.append(newv)
             if outcome in ("Some", "Back"):
                 if outcome == "Some":
                     rep.yields.append((s2, r.fields["0"]))
